@@ -561,8 +561,28 @@ func runScenario(id int, sc Scenario, r *hx.Rand) {
 			if len(pairs) > 0 {
 				nsp = strings.Join(pairs, ".")
 			}
-			lines = append(lines, fmt.Sprintf("obs %d p=%d fields=%s flat=%s n=%d ids=%s get=%s str=%s less=%s sorts=%s ns=%s nsr=%s nsp=%s",
-				id, pi, names(ps.p.Fields()), names(flat), n, ints(ids), get, str, less, sorts, ns, nsr, nsp))
+			// equalRow between the stored rows of the first keys (the bucket-scan comparison)
+			eq := "-"
+			if n > 0 {
+				m := n
+				if m > 6 {
+					m = 6
+				}
+				rows := make([]string, m)
+				for a := 0; a < m; a++ {
+					b := make([]byte, m)
+					for c := 0; c < m; c++ {
+						b[c] = '0'
+						if benchproc.VerifEqualRow(benchproc.VerifKeyVals(ps.distinct[a]), benchproc.VerifKeyVals(ps.distinct[c])) {
+							b[c] = '1'
+						}
+					}
+					rows[a] = string(b)
+				}
+				eq = strings.Join(rows, ".")
+			}
+			lines = append(lines, fmt.Sprintf("obs %d p=%d fields=%s flat=%s n=%d ids=%s get=%s str=%s less=%s sorts=%s ns=%s nsr=%s nsp=%s eq=%s",
+				id, pi, names(ps.p.Fields()), names(flat), n, ints(ids), get, str, less, sorts, ns, nsr, nsp, eq))
 			if sc.S {
 				lines = append(lines, fmt.Sprintf("sobs %d p=%d flat=%s n=%d ids=%s get=%s less=%s sorts=%s nsp=%s",
 					id, pi, names(flat), n, ints(ids), get, less, sorts, nsp))
